@@ -263,5 +263,10 @@ func (setup *SetupServerController) handleKeyExchange(in util.Container) (util.C
 
 func (setup *SetupServerController) reset() {
 	setup.step = PairStepWaiting
-	// TODO: reset session
+
+	// The next exchange gets new SRP values (salt, b, B). The messages of an
+	// earlier exchange – recorded on this connection – must not verify again.
+	if session, err := NewSetupServerSession(setup.device.Name(), setup.device.Pin()); err == nil {
+		setup.session = session
+	}
 }
